@@ -3,8 +3,9 @@
 // subsets account-less or left unsigned, over duties of 1-12 validators in 1-4 committees of
 // different sizes in shuffled order; and (family "merged-duties") through one Attest call per slot
 // on the duty objects the real attester.MergeDuties builds from a beacon node's answer covering
-// several slots, in which the same committee index has different lengths at different slots;
-// prints the case for Check.C04.
+// several slots, in which the same committee index has different lengths at different slots; and
+// (families "overlap", "merged-overlap") through calls for different slots that overlap on the one
+// service, as the scheduler's per-slot jobs do; prints the case for Check.C04.
 package c04
 
 import (
@@ -57,7 +58,8 @@ func (in Input) usesApi() bool {
 // call of Attest, and the history to print (runs from the api carry the observed merged duty).
 func runInput(t *testing.T, in Input) (Observed, []Duty, History) {
 	if !in.usesApi() {
-		return RunHistory(t, in.History), nil, in.History
+		// the same runner and mocks (attenv/c04_overlap.go) as on the merged path
+		return RunHistoryWithDuties(t, in.History, nil), nil, in.History
 	}
 	var objs []*attester.Duty
 	var merged []Duty
@@ -293,13 +295,25 @@ func genMerged(r *Rand, traceLog bool) (Input, []string) {
 		order = append(order, order[r.Intn(len(order))]) // the same duty object once more
 		fam["merged-redelivered"] = true
 	}
+	var apiRuns []int
 	for _, k := range order {
 		s := Script{Data: goodData(r, h.SPE, slots[k]), Accounts: sorted(accts), Unsigned: sorted(unsigned)}
 		if r.Chance(1, 30) {
 			s.SubmitErr = true
 		}
+		apiRuns = append(apiRuns, len(h.Runs))
 		h.Runs = append(h.Runs, Run{Duty: Duty{Slot: slots[k]}, Script: s, Timing: seqTiming(r, len(h.Runs))})
 		in.FromApi = append(in.FromApi, true)
+	}
+	if len(apiRuns) > 1 && r.Chance(1, 3) {
+		// the calls for the slots overlap on the one service (a slot's job still waiting for its
+		// signatures, or for the beacon nodes, when the next slot's job starts)
+		mode := pickOverlapMode(r)
+		for j, tm := range overlapTimings(r, 1000*apiRuns[0]+10, apiRuns, mode) {
+			h.Runs[apiRuns[j]].Timing = tm
+		}
+		fam["merged-overlap"] = true
+		fam["overlap-"+overlapModes[mode]] = true
 	}
 	var tags []string
 	for f := range fam {
@@ -334,6 +348,237 @@ func goodData(r *Rand, spe, slot uint64) Data {
 func seqTiming(r *Rand, i int) Timing {
 	return Timing{Start: uint64(K*1000*i + i), Fetch: uint64(K * r.Range(1, 5)), Accounts: uint64(K * r.Range(1, 5)),
 		Sign: uint64(K * r.Range(1, 5)), Submit: uint64(K * r.Range(1, 5))}
+}
+
+// Overlapping calls.  The scheduler runs one attestation job per slot, each calling Attest on the one
+// service with no mutual exclusion; a call that waits (for the attestation data, the accounts, a slow
+// remote signer, the beacon nodes) is overlapped by the call for the next slot, or by a late call for
+// an earlier one.  overlapTimings lays the calls idx (run indices, the first is the waiting call A)
+// out accordingly; base is A's start in units of K.  Modes:
+//   sign-window     A's signer is slow; every other call receives its accounts -- and so fills its
+//                   per-validator arrays and calls its own signer -- while A waits for its signatures
+//   submit-window   A's submission is slow; the others build their attestations meanwhile
+//   accounts-window A's accounts provider is slow; the others receive their attestation data meanwhile
+//   random          starts within a short span, any latencies
+var overlapModes = []string{"sign-window", "submit-window", "accounts-window", "random"}
+
+func pickOverlapMode(r *Rand) int {
+	switch x := r.Intn(20); {
+	case x < 10:
+		return 0
+	case x < 13:
+		return 1
+	case x < 16:
+		return 2
+	}
+	return 3
+}
+
+func overlapTimings(r *Rand, base int, idx []int, mode int) []Timing {
+	lat := func(lo, hi int) uint64 { return uint64(K * r.Range(lo, hi)) }
+	ts := make([]Timing, len(idx))
+	if mode == 3 {
+		for j, i := range idx {
+			ts[j] = Timing{Start: uint64(K*(base+r.Intn(30)) + i), Fetch: lat(1, 20), Accounts: lat(1, 10), Sign: lat(1, 20), Submit: lat(1, 20)}
+		}
+		return ts
+	}
+	f, a, sg, sb := r.Range(1, 4), r.Range(1, 4), r.Range(1, 4), r.Range(1, 4)
+	long := r.Range(20, 40)
+	win := 0 // start of A's long wait, in units of K after A's start
+	switch mode {
+	case 0:
+		sg, win = long, f+a
+	case 1:
+		sb, win = long, f+a+sg
+	default:
+		a, win = long, f
+	}
+	ts[0] = Timing{Start: uint64(K*base + idx[0]), Fetch: uint64(K * f), Accounts: uint64(K * a), Sign: uint64(K * sg), Submit: uint64(K * sb)}
+	for j := 1; j < len(idx); j++ {
+		bf, ba, bs := r.Range(1, 3), r.Range(1, 3), r.Range(1, 3)
+		off := bf // the instant of this call that falls into A's wait, in units of K after its start
+		switch mode {
+		case 0:
+			off = bf + ba
+		case 1:
+			off = bf + ba + bs
+		}
+		x := r.Range(1, long-2)
+		t := Timing{Start: uint64(K*(base+win+x-off) + idx[j]), Fetch: uint64(K * bf), Accounts: uint64(K * ba), Sign: uint64(K * bs), Submit: lat(1, 30)}
+		if mode != 1 {
+			t.Sign = lat(1, 30) // returns before or after A's wait is over
+		}
+		ts[j] = t
+	}
+	return ts
+}
+
+// genOverlap: 2-3 duties of different slots (of one epoch, or of two consecutive epochs with the
+// same validators), each with its own committees, positions and committee sizes, attested by
+// overlapping calls on the one service; before them, sometimes, an earlier call that marks some
+// validators as already attested (and is the largest duty the service has seen).
+func genOverlap(r *Rand, traceLog bool) (History, []string) {
+	h := History{SPE: []uint64{4, 8, 32}[r.Intn(3)], TraceLog: traceLog}
+	fam := map[string]bool{"overlap": true}
+	epoch := uint64(r.Range(0, 60))
+	nmain := 2
+	if r.Chance(3, 10) {
+		nmain = 3
+	}
+	twoEpochs := r.Chance(2, 5)
+	slots := make([]uint64, 0, nmain)
+	usedSlot := map[uint64]bool{}
+	for len(slots) < nmain {
+		e := epoch
+		if twoEpochs && len(slots) > 0 && (len(slots) == 1 || r.Bool()) {
+			e = epoch + 1
+		}
+		sl := e*h.SPE + uint64(r.Intn(int(h.SPE)))
+		if !usedSlot[sl] {
+			usedSlot[sl] = true
+			slots = append(slots, sl)
+		}
+	}
+	if r.Chance(1, 4) {
+		// a late call for the older slot comes second
+		slots[0], slots[1] = slots[1], slots[0]
+		fam["overlap-older-slot-second"] = true
+	}
+	if twoEpochs {
+		fam["overlap-two-epochs"] = true
+	} else {
+		fam["overlap-same-epoch"] = true
+	}
+	// sizes of the duties; in half of the cases the waiting call has the largest
+	ns := make([]int, nmain)
+	for j := range ns {
+		ns[j] = r.Range(1, 6)
+	}
+	if r.Bool() {
+		for j := 1; j < nmain; j++ {
+			if ns[j] > ns[0] {
+				ns[0], ns[j] = ns[j], ns[0]
+			}
+		}
+		fam["overlap-first-largest"] = true
+	}
+	seen := map[uint64]bool{}
+	fresh := func() uint64 {
+		v := uint64(r.Range(0, 60))
+		for seen[v] {
+			v = uint64(r.Range(0, 60))
+		}
+		seen[v] = true
+		return v
+	}
+	disjointComms := r.Bool() // committee indices of different duties from different ranges
+	duties := make([]Duty, nmain)
+	var all []uint64
+	for j := range duties {
+		d := Duty{Slot: slots[j]}
+		ncomm := r.Range(1, 3)
+		for c := 0; c < ncomm; c++ {
+			ci := uint64(2*c + r.Intn(2))
+			if disjointComms {
+				ci += uint64(8 * j)
+			}
+			// the same committee index has different sizes at different slots
+			d.Sizes = append(d.Sizes, [2]uint64{ci, uint64(5 + 3*c + r.Intn(3) + 11*j)})
+		}
+		usedPos := map[[2]uint64]bool{}
+		for i := 0; i < ns[j]; i++ {
+			var v uint64
+			prevEpoch := j > 0 && slots[j]/h.SPE != slots[0]/h.SPE
+			switch {
+			case prevEpoch && i < len(duties[0].Vals) && r.Chance(2, 3) && !containsU(d.Vals, duties[0].Vals[i]):
+				v = duties[0].Vals[i] // the same validator attests in the next epoch
+				fam["overlap-validator-in-two-epochs"] = true
+			case j > 0 && !prevEpoch && i == 0 && r.Chance(1, 5):
+				v = duties[0].Vals[r.Intn(len(duties[0].Vals))] // also in the other call's duty of this epoch: one of the two skips it
+				fam["overlap-shared-validator"] = true
+			default:
+				v = fresh()
+			}
+			k := uint64(r.Intn(ncomm))
+			size := d.Sizes[k][1]
+			pos := uint64(r.Intn(int(size)))
+			for tries := 0; usedPos[[2]uint64{k, pos}] && tries < 8; tries++ {
+				pos = uint64(r.Intn(int(size)))
+			}
+			usedPos[[2]uint64{k, pos}] = true
+			d.Vals = append(d.Vals, v)
+			d.Comms = append(d.Comms, d.Sizes[k][0])
+			d.Poss = append(d.Poss, pos)
+			if !containsU(all, v) {
+				all = append(all, v)
+			}
+		}
+		duties[j] = d
+	}
+	var pre, noacct, unsigned []uint64
+	for _, v := range all {
+		switch r.Intn(14) {
+		case 0:
+			pre = append(pre, v)
+			fam["overlap-skip-attested"] = true
+		case 1:
+			noacct = append(noacct, v)
+			fam["overlap-skip-accountless"] = true
+		case 2:
+			unsigned = append(unsigned, v)
+			fam["overlap-skip-unsigned"] = true
+		}
+	}
+	if len(pre) > 0 || r.Chance(1, 4) {
+		// an earlier call, long finished when the others start: marks [pre] for the first epoch and has
+		// more validators than any of the later duties
+		pslot := epoch*h.SPE + uint64(r.Intn(int(h.SPE)))
+		pd := Duty{Slot: pslot, Sizes: [][2]uint64{{9, 64}}}
+		pvals := append([]uint64{}, pre...)
+		for len(pvals) < 7 {
+			pvals = append(pvals, fresh())
+		}
+		for i, v := range pvals {
+			pd.Vals = append(pd.Vals, v)
+			pd.Comms = append(pd.Comms, 9)
+			pd.Poss = append(pd.Poss, uint64(i))
+		}
+		h.Runs = append(h.Runs, Run{Duty: pd, Script: Script{Data: goodData(r, h.SPE, pslot), Accounts: sorted(pvals)}, Timing: seqTiming(r, 0)})
+		fam["overlap-after-larger-duty"] = true
+	}
+	var accts []uint64
+	for _, v := range all {
+		if !containsU(noacct, v) {
+			accts = append(accts, v)
+		}
+	}
+	if r.Chance(1, 3) {
+		accts = append(accts, 77, 78)
+	}
+	var idx []int
+	for j := range duties {
+		s := Script{Data: goodData(r, h.SPE, slots[j]), Accounts: sorted(accts), Unsigned: sorted(unsigned)}
+		if r.Chance(1, 30) {
+			s.SubmitErr = true
+		}
+		if j > 0 && r.Chance(1, 30) {
+			s.SignErr = true
+		}
+		idx = append(idx, len(h.Runs))
+		h.Runs = append(h.Runs, Run{Duty: duties[j], Script: s})
+	}
+	mode := pickOverlapMode(r)
+	for j, tm := range overlapTimings(r, 1000*idx[0]+10, idx, mode) {
+		h.Runs[idx[j]].Timing = tm
+	}
+	fam["overlap-"+overlapModes[mode]] = true
+	var tags []string
+	for f := range fam {
+		tags = append(tags, f)
+	}
+	sort.Strings(tags)
+	return h, tags
 }
 
 func gen(r *Rand, traceLog bool) (History, []string) {
@@ -526,7 +771,7 @@ func containsU(xs []uint64, x uint64) bool {
 
 func TestC04(t *testing.T) {
 	col := NewCollector("C04", "Check.C04",
-		"one observed Attest call over a duty of 1-12 validators in 1-4 committees of different sizes (shuffled or sorted order), after earlier calls that mark a chosen subset as already attested, with chosen subsets account-less or unsigned; non-trivial = at least one attestation is submitted (the assignment lookup is reached); distinct by full input text")
+		"one observed Attest call over a duty of 1-12 validators in 1-4 committees of different sizes (shuffled or sorted order), after earlier calls that mark a chosen subset as already attested, with chosen subsets account-less or unsigned; every 8th case: calls for 2-3 slots overlapping on the one service (a call waiting for its signatures, the beacon nodes or its accounts while the others run); non-trivial = at least one attestation is submitted (the assignment lookup is reached); distinct by full input text")
 	n := EnvInt("VERIF_N", 800)
 	thorough := os.Getenv("VERIF_TIER") == "thorough"
 	type item struct {
@@ -542,6 +787,11 @@ func TestC04(t *testing.T) {
 		if i%4 == 3 {
 			in, tg := genMerged(rng.Fork(), thorough && i%8 == 7)
 			items = append(items, item{in, tg})
+			continue
+		}
+		if i%8 == 5 {
+			h, tg := genOverlap(rng.Fork(), thorough && i%16 == 5)
+			items = append(items, item{Input{History: h}, tg})
 			continue
 		}
 		h, tg := gen(rng.Fork(), thorough && i%2 == 1)
